@@ -74,6 +74,8 @@ def C14():
         jobs.append(Kani("c14_h14d_zero_at_call_%d" % k, "zero-then-progress: write call %d accepts nothing, the others a solver-chosen non-empty prefix: Link::write returns Ok only if every byte reached the stream" % k,
                          tiers=("quick", "thorough") if k == 1 else ("thorough",), bounds={"payload": 3, "zero_at": k, "unwind": 6}, symbolic=["data", "accepted prefix per write"],
                          functions=["model::link::Link::write", "model::link::Stream::write", "std::io::Write::write_all"], timeout=400, mem_gb=6))
+    jobs.append(MirJob("c14_mir_stream_write", "Stream::write hands the whole buffer to Write::write_all in both arms (complete-or-error); a hand-written retry loop is only accepted if a native battery of caps / zero-length writes / injected errors finds no Ok with bytes missing",
+                       mirjobs.stream_write_all))
     jobs.append(MirJob("c14_mir_tpkt_write", "tpkt::Client::write: the u16 handed to tpkt_header equals Message::length() and length()+4 fits 16 bits on every path that sends (else Err); frame is [header, message]; Link::write's result is returned unchanged; same shape for x224::Client::write",
                        mirjobs.tpkt_write))
     return Prop("C14", [("core/tpkt.rs", "tpkt.rs")], jobs, lowerings=["L2"],
